@@ -8,6 +8,7 @@ import (
 	"gitee.com/xuesongtao/protoc-go-valid/valid"
 	"vmon/internal/clause"
 	"vmon/internal/core"
+	"vmon/internal/ref"
 )
 
 // C14 — rule text round-trips through the builder, the splitter and the parser.
@@ -21,7 +22,9 @@ type ruleTriple struct {
 	HasMsg        bool
 }
 
-var c14Plain = []rune("abcXYZ019测试调四川~/()=:.- _")
+// 大 (U+5927), 丬 (U+4E2C), ħ (U+0127), Ĭ (U+012C), ż (U+017C), Ľ (U+013D): runes whose code point
+// modulo 256 is one of the metacharacters ' , | = — a scanner that narrows runes to bytes confuses them
+var c14Plain = []rune("abcXYZ019测试调四川~/()=:.- _大丬ħĬżĽ")
 
 func c14Plainish(rng *rand.Rand, n int, noEq bool) string {
 	var sb strings.Builder
@@ -257,7 +260,7 @@ func runC14(c *core.Ctx) {
 	}
 
 	// ---- no-loss law and fast/slow agreement on arbitrary strings
-	alpha := []string{",", ",", "'", "'", "a", "b", "=", "|", "/", "(", ")", "~", "测", " ", "\x00", "\\", "\"", "é"}
+	alpha := []string{",", ",", "'", "'", "a", "b", "=", "|", "/", "(", ")", "~", "测", " ", "\x00", "\\", "\"", "é", "大", "丬", "ħ", "Ĭ"}
 	M := c.Pick(150000, 3000000)
 	for i := 0; i < M; i++ {
 		n := rng.Intn(14)
@@ -295,6 +298,19 @@ func runC14(c *core.Ctx) {
 			res.Count("noloss_slow_path")
 		} else {
 			res.Count("noloss_fast_path")
+		}
+		// independent splitter (quote state toggles at every single quote; separators split outside
+		// quotes only). Judged when the quotes are balanced, as the documentation describes.
+		if nq := strings.Count(s, "'"); nq > 0 && nq%2 == 0 {
+			want := ref.SplitQuoted(s, sep)
+			same := len(want) == len(pieces)
+			for k := 0; same && k < len(want); k++ {
+				same = want[k] == pieces[k]
+			}
+			res.Count("split_vs_reference")
+			if !same {
+				res.Violate("C14|split-differs-from-reference", fmt.Sprintf("ValidNamesSplit(%q, %q)=%q, a quote-aware splitter gives %q", s, string(sep), pieces, want), s)
+			}
 		}
 		j := strings.Join(pieces, string(sep))
 		if j != s && j+string(sep) != s {
